@@ -642,6 +642,18 @@ def run_case(case, mon):
     rot = mon.evaluations % 6
     for di, (dname, ctx) in enumerate(ctxs.items()):
         renders = [("bare", o.get_sql(ctx))]
+        if di == rot:
+            # the same tree after builder calls that do not concern it (a table swap naming tables it does not use, a copy): the
+            # operators and their grouping are still the ones that were built
+            try:
+                import copy as _copy
+                o2 = o.replace_table(reg["Table"]("zz_unrelated"), reg["Table"]("yy_unrelated"))
+                renders.append(("after-replace_table", o2.get_sql(ctx)))
+                renders.append(("after-copy", _copy.copy(o).get_sql(ctx)))
+                mon.count("renders_after_unrelated_builder_calls", 2)
+            except Exception as e_:
+                mon.violation("raises-after-builder-call:%s" % type(e_).__name__, "replace_table / copy of the built tree raised %r; tree %s" % (e_, ref_or_repr(tree)[:160]))
+                return
         if di == rot or di == (rot + 3) % 6:
             t = reg["Table"]("t")
             q = reg[dname].from_(t).select(o)
